@@ -329,6 +329,11 @@ pub trait Allocator<VM: VMBinding>: Downcast {
                 .allow_oom_call
             {
                 self.out_of_memory(tls);
+            } else {
+                // The binding does not want the OOM call-back, but this request has failed for
+                // good: remember that, so that `alloc_slow_inline` returns null instead of
+                // retrying the same hopeless request forever.
+                self.get_context().thrown_oom.store(true, Ordering::Relaxed);
             }
             return true;
         }
